@@ -412,6 +412,338 @@ def canonicalise_paths(text, j):
     return text, ren
 
 
+def _split_top(s):
+    """split `a, b<c, d>, e` at top-level commas"""
+    out, depth, cur = [], 0, ""
+    for ch in s:
+        if ch in "<([":
+            depth += 1
+        elif ch in ">)]":
+            depth -= 1
+        if ch == "," and depth == 0:
+            out.append(cur.strip())
+            cur = ""
+        else:
+            cur += ch
+    if cur.strip():
+        out.append(cur.strip())
+    return out
+
+
+def erase_newtypes(j):
+    """A private single-field struct that is not one of the role types (`struct Epsilon<T>(T)`, `struct
+    BasisFunctions<T>(Vec<ModelBasisFunction<T>>)`) is its field: the same memory, the same value. The facts are presented
+    with such wrappers erased — the wrapping aggregate is its operand, the projection of the only field is the identity,
+    `N<args>` in type strings is the field type — so that introducing or removing a newtype around a role does not change
+    any term. The wrapper's own methods stay ordinary local functions (a constructor that normalises its argument is
+    still seen doing so when it is inlined). Returns {newtype path: field type template}."""
+    import re
+    canon = set(CANONICAL_PATHS)
+    nts = {}
+    for a in j.get("adts", []):
+        if a.get("kind") != "Struct" or a["path"] in canon or len(a.get("variants", [])) != 1:
+            continue
+        fs = a["variants"][0].get("fields", [])
+        if len(fs) != 1 or a["path"].startswith(("std::", "core::", "alloc::")):
+            continue
+        nts[a["path"]] = {"field": fs[0]["name"], "ty": fs[0]["ty"], "params": None}
+    if not nts:
+        return {}
+    # generic parameter names in declaration order, from the identity self types of the impls
+    for im in j.get("impls", []):
+        st = im.get("self_ty", "")
+        for n_, info in nts.items():
+            if info["params"] is None and (st == n_ or st.startswith(n_ + "<")) :
+                info["params"] = _split_top(st[len(n_) + 1:-1]) if st.startswith(n_ + "<") else []
+    for b in j.get("bodies", []):
+        st = (b.get("impl") or {}).get("self_ty", "")
+        for n_, info in nts.items():
+            if info["params"] is None and (st == n_ or st.startswith(n_ + "<")):
+                info["params"] = _split_top(st[len(n_) + 1:-1]) if st.startswith(n_ + "<") else []
+    nts = {k: v for k, v in nts.items() if v["params"] is not None or "<" not in v["ty"] and v["ty"].isidentifier() is False}
+    for v in nts.values():
+        if v["params"] is None:
+            v["params"] = []
+
+    def subst_ty(t):
+        """rewrite every `N<args>` in a type string"""
+        changed = True
+        guard = 0
+        while changed and guard < 20:
+            changed = False
+            guard += 1
+            for n_, info in nts.items():
+                i = t.find(n_)
+                while i >= 0:
+                    before = t[i - 1] if i > 0 else " "
+                    after_i = i + len(n_)
+                    if before.isalnum() or before in "_:" or (after_i < len(t) and (t[after_i].isalnum() or t[after_i] in "_")) or t[after_i:after_i + 2] == "::":
+                        i = t.find(n_, i + 1)
+                        continue
+                    args = []
+                    end = after_i
+                    if end < len(t) and t[end] == "<":
+                        depth, k = 0, end
+                        while k < len(t):
+                            if t[k] == "<":
+                                depth += 1
+                            elif t[k] == ">" and (k == 0 or t[k - 1] != "-"):
+                                depth -= 1
+                                if depth == 0:
+                                    break
+                            k += 1
+                        args = _split_top(t[end + 1:k])
+                        end = k + 1
+                    inner = info["ty"]
+                    for pn, av in zip(info["params"], args):
+                        inner = re.sub(r"(?<![A-Za-z0-9_:])" + re.escape(pn) + r"(?![A-Za-z0-9_])", av.replace("\\", "\\\\"), inner)
+                    t = t[:i] + inner + t[end:]
+                    changed = True
+                    i = t.find(n_, i + len(inner))
+        return t
+
+    def fix_place(pl):
+        if isinstance(pl, dict) and "proj" in pl:
+            pl["proj"] = [e for e in pl["proj"] if not (e.get("k") == "field" and e.get("owner") in nts)]
+            for e in pl["proj"]:
+                if isinstance(e.get("ty"), str):
+                    e["ty"] = subst_ty(e["ty"])
+
+    def walk(o):
+        if isinstance(o, dict):
+            if "proj" in o and "l" in o:
+                fix_place(o)
+            for k, v in list(o.items()):
+                if k in ("ty",) and isinstance(v, str):
+                    o[k] = subst_ty(v)
+                elif k in ("inputs", "gargs") and isinstance(v, list):
+                    o[k] = [subst_ty(x) if isinstance(x, str) else x for x in v]
+                elif k == "output" and isinstance(v, str):
+                    o[k] = subst_ty(v)
+                else:
+                    walk(v)
+        elif isinstance(o, list):
+            for x in o:
+                walk(x)
+    for b in j.get("bodies", []):
+        for blk in b.get("blocks", []):
+            for s_ in blk.get("stmts", []):
+                rv = s_.get("rv")
+                if isinstance(rv, dict) and rv.get("k") == "agg" and rv.get("adt") in nts and len(rv.get("ops", [])) == 1:
+                    s_["rv"] = {"k": "use", "op": rv["ops"][0]}
+        walk(b)
+    for a in j.get("adts", []):
+        if a["path"] in nts:
+            continue
+        for v in a.get("variants", []):
+            for f in v.get("fields", []):
+                if isinstance(f.get("ty"), str):
+                    f["ty"] = subst_ty(f["ty"])
+                if f.get("adt") in nts:
+                    f["adt"] = None
+    return {k: v["ty"] for k, v in nts.items()}
+
+
+def present_option_like_enums(j):
+    """A private enum with exactly one unit variant and one variant that carries a single value (`enum Cache { Empty,
+    Valid(Calculations) }`) is an `Option` under other names. The facts are presented with such an enum as
+    `std::option::Option` — aggregates, discriminant reads, downcasts and type strings — so that every rule that knows
+    "absent / present" (the Option algebra of the evaluator, the cache rules) applies unchanged. Role types (Weights:
+    Unit / Diagonal) are not touched. Returns {enum path: (absent variant, present variant)}."""
+    canon = set(CANONICAL_PATHS)
+    es = {}
+    for a in j.get("adts", []):
+        if a.get("kind") != "Enum" or a["path"] in canon or len(a.get("variants", [])) != 2 or a["path"].startswith(("std::", "core::")):
+            continue
+        v0, v1 = a["variants"]
+        unit = [v for v in (v0, v1) if not v.get("fields")]
+        full = [v for v in (v0, v1) if len(v.get("fields", [])) == 1]
+        if len(unit) == 1 and len(full) == 1:
+            es[a["path"]] = {"none": unit[0]["name"], "some": full[0]["name"], "ty": full[0]["fields"][0]["ty"], "params": None,
+                             "field": full[0]["fields"][0]["name"]}
+    if not es:
+        return {}
+    for src in [im.get("self_ty", "") for im in j.get("impls", [])] + [(b.get("impl") or {}).get("self_ty", "") for b in j.get("bodies", [])]:
+        for n_, info in es.items():
+            if info["params"] is None and (src == n_ or src.startswith(n_ + "<")):
+                info["params"] = _split_top(src[len(n_) + 1:-1]) if src.startswith(n_ + "<") else []
+    for v in es.values():
+        if v["params"] is None:
+            v["params"] = []
+    import re
+
+    def subst_ty(t):
+        guard = 0
+        for n_, info in es.items():
+            i = t.find(n_)
+            while i >= 0 and guard < 50:
+                guard += 1
+                before = t[i - 1] if i > 0 else " "
+                end = i + len(n_)
+                if before.isalnum() or before in "_:" or (end < len(t) and (t[end].isalnum() or t[end] == "_")) or t[end:end + 2] == "::":
+                    i = t.find(n_, i + 1)
+                    continue
+                args = []
+                if end < len(t) and t[end] == "<":
+                    depth, k = 0, end
+                    while k < len(t):
+                        if t[k] == "<":
+                            depth += 1
+                        elif t[k] == ">" and t[k - 1] != "-":
+                            depth -= 1
+                            if depth == 0:
+                                break
+                        k += 1
+                    args = _split_top(t[end + 1:k])
+                    end = k + 1
+                inner = info["ty"]
+                for pn, av in zip(info["params"], args):
+                    inner = re.sub(r"(?<![A-Za-z0-9_:])" + re.escape(pn) + r"(?![A-Za-z0-9_])", lambda m_, av=av: av, inner)
+                rep = "std::option::Option<" + inner + ">"
+                t = t[:i] + rep + t[end:]
+                i = t.find(n_, i + len(rep))
+        return t
+
+    def walk(o):
+        if isinstance(o, dict):
+            if o.get("k") == "agg" and o.get("adt") in es:
+                info = es[o["adt"]]
+                o["variant"] = "Some" if o.get("variant") == info["some"] else "None"
+                o["adt"] = "std::option::Option"
+                if o["variant"] == "Some":
+                    o["fields"] = ["0"]
+            if o.get("k") == "discr" and o.get("adt") in es:
+                info = es[o["adt"]]
+                o["variants"] = [[v, ("Some" if n == info["some"] else "None")] for v, n in o.get("variants", [])]
+                o["adt"] = "std::option::Option"
+            if "proj" in o and "l" in o:
+                pr = o["proj"]
+                for i_, e in enumerate(pr):
+                    if e.get("k") == "field" and e.get("owner") in es:
+                        info = es[e["owner"]]
+                        e["owner"] = "std::option::Option"
+                        e["name"] = "0"
+                        if i_ > 0 and pr[i_ - 1].get("k") == "downcast":
+                            pr[i_ - 1]["variant"] = "Some" if pr[i_ - 1].get("variant") == info["some"] else "None"
+            for k, v in list(o.items()):
+                if k == "ty" and isinstance(v, str):
+                    o[k] = subst_ty(v)
+                elif k in ("inputs", "gargs") and isinstance(v, list):
+                    o[k] = [subst_ty(x) if isinstance(x, str) else x for x in v]
+                elif k == "output" and isinstance(v, str):
+                    o[k] = subst_ty(v)
+                else:
+                    walk(v)
+        elif isinstance(o, list):
+            for x in o:
+                walk(x)
+    for b in j.get("bodies", []):
+        walk(b)
+    for a in j.get("adts", []):
+        if a["path"] in es:
+            continue
+        for v in a.get("variants", []):
+            for f in v.get("fields", []):
+                if isinstance(f.get("ty"), str):
+                    f["ty"] = subst_ty(f["ty"])
+                if f.get("adt") in es:
+                    f["adt"] = "std::option::Option"
+    return {k: (v["none"], v["some"]) for k, v in es.items()}
+
+
+def flatten_group_structs(j):
+    """A private struct that only groups fields of ONE other local struct (`struct Counts { linear, nonlinear, dof }` as
+    the type of the single field `counts` of the statistics) is presented flattened into its owner: the owner has the
+    fields `counts.linear`, …; an aggregate of the owner takes them from the grouped value, a projection `.counts.dof`
+    is the field `counts.dof`. Role resolution by type and use then sees the same fields whether or not they are
+    grouped. Returns {(owner path, field name): group path}."""
+    canon = set(CANONICAL_PATHS)
+    adts = {a["path"]: a for a in j.get("adts", [])}
+    cands = {p_: a for p_, a in adts.items() if a.get("kind") == "Struct" and p_ not in canon and len(a.get("variants", [])) == 1
+             and len(a["variants"][0].get("fields", [])) >= 2 and not p_.startswith(("std::", "core::"))}
+    uses = {}
+    for p_, a in adts.items():
+        for v in a.get("variants", []):
+            for f in v.get("fields", []):
+                if f.get("adt") in cands and f["adt"] != p_:
+                    uses.setdefault(f["adt"], []).append((p_, v["name"], f["name"], f["ty"]))
+    groups = {}
+    for g, us in uses.items():
+        if len(us) != 1 or adts[us[0][0]].get("kind") != "Struct":
+            continue
+        owner, _v, fname, fty = us[0]
+        if fty.split("<", 1)[0] != g:
+            continue      # Option<Group>, Vec<Group> … : not a plain grouping
+        # the group type must not appear in signatures of functions outside its own impls (then it is an interface type)
+        ok = True
+        for b in j.get("bodies", []):
+            st = (b.get("impl") or {}).get("self_adt") or ""
+            if st == g:
+                continue
+            sig = " ".join(b.get("inputs", []) or []) + " " + (b.get("output") or "")
+            if g in sig:
+                ok = False
+        if ok:
+            groups[(owner, fname)] = g
+    if not groups:
+        return {}
+    gfields = {g: [f for f in adts[g]["variants"][0]["fields"]] for g in groups.values()}
+    # owner ADT entries
+    for (owner, fname), g in groups.items():
+        for v in adts[owner]["variants"]:
+            nf = []
+            for f in v["fields"]:
+                if f["name"] == fname:
+                    for gf in gfields[g]:
+                        x = dict(gf)
+                        x["name"] = fname + "." + gf["name"]
+                        nf.append(x)
+                else:
+                    nf.append(f)
+            v["fields"] = nf
+
+    def walk(o):
+        if isinstance(o, dict):
+            if o.get("k") == "agg" and o.get("agg") == "adt":
+                for (owner, fname), g in groups.items():
+                    if o.get("adt") == owner and fname in o.get("fields", []):
+                        i = o["fields"].index(fname)
+                        op = o["ops"][i]
+                        if op.get("k") in ("move", "copy") and "place" in op:
+                            nfs, nops = [], []
+                            for gf in gfields[g]:
+                                nfs.append(fname + "." + gf["name"])
+                                pl = {"l": op["place"]["l"], "proj": list(op["place"]["proj"]) + [{"k": "field", "name": gf["name"], "ty": gf["ty"], "owner": g}]}
+                                nops.append({"k": "copy", "place": pl})
+                            o["fields"] = o["fields"][:i] + nfs + o["fields"][i + 1:]
+                            o["ops"] = o["ops"][:i] + nops + o["ops"][i + 1:]
+            if "proj" in o and "l" in o:
+                pr = o["proj"]
+                out = []
+                i = 0
+                while i < len(pr):
+                    e = pr[i]
+                    if e.get("k") == "field" and (e.get("owner"), e.get("name")) in groups and i + 1 < len(pr) and pr[i + 1].get("k") == "field" \
+                            and pr[i + 1].get("owner") == groups[(e.get("owner"), e.get("name"))]:
+                        n = dict(pr[i + 1])
+                        n["name"] = e["name"] + "." + pr[i + 1]["name"]
+                        n["owner"] = e["owner"]
+                        out.append(n)
+                        i += 2
+                        continue
+                    out.append(e)
+                    i += 1
+                o["proj"] = out
+            for v in o.values():
+                walk(v)
+        elif isinstance(o, list):
+            for x in o:
+                walk(x)
+    for b in j.get("bodies", []):
+        walk(b)
+    return groups
+
+
 class Facts:
     def __init__(self, path_or_json):
         self.renamed = {}
@@ -425,6 +757,10 @@ class Facts:
                 self.renamed = ren
         else:
             j = path_or_json
+        self.groups = flatten_group_structs(j) if j.get("crate") == "varpro" else {}
+        self.group_fields = set(fn for (_o, fn) in self.groups)
+        self.option_like = present_option_like_enums(j) if j.get("crate") == "varpro" else {}
+        self.newtypes = erase_newtypes(j) if j.get("crate") == "varpro" else {}
         self.j = j
         self.config = j.get("config")
         self.crate = j.get("crate")
